@@ -58,12 +58,14 @@ UNPROVED = ["no_panic_full (∀ bs, every entry point returns ok/err): false on 
             "F13-alloc-xar.Sign: fixed)"]
 IMPL_PARALLEL = 12
 # a deadline hit or an over-bound allocation is confirmed by running the op again alone in a fresh process with a deadline
-# of 30 s (default 2 s): a genuine hang or allocation reproduces, an artefact of a loaded machine does not
-RETRY_ENV = {"C11_DEADLINE_MS": "30000"}
+# of 10 s (default 2 s): a genuine hang or allocation reproduces, an artefact of a loaded machine does not
+RETRY_ENV = {"C11_DEADLINE_MS": "10000"}
 
 
 def retry_alone(op, il):
-    return il == "timeout" or il.startswith("alloc ") or il.startswith("crash") or il == "not-run"
+    # `alloc <site> <MiB>` with a site named by the allocation profile is a measurement of this op; `alloc ? …` is the
+    # process-wide account without a site (possibly polluted by a goroutine of the previous op)
+    return il == "timeout" or il.startswith("alloc ? ") or il.startswith("crash") or il == "not-run"
 IMPL_TIMEOUT = 3000
 
 MODEL_TOKENS = ("APKBLK", "CSBLOB", "XAPSIG", "BINLOAD")
@@ -324,3 +326,14 @@ def run(ctx):
 import sys as _sys_dmn, os as _os_dmn
 _sys_dmn.path.insert(0, _os_dmn.path.join(_os_dmn.path.dirname(_os_dmn.path.dirname(_os_dmn.path.abspath(__file__))), "models"))
 import daemon as _dmn; _dmn.wrap(globals(), "C11")
+# --- RPM ops (malformed packages against signers/rpm + go-rpmutils in-process; checklib/models/rpm.py): a further correspondence
+# under the pseudo-property C11RPM; theorems Relic.Props.C11.rpm_no_panic_partial, rpm_panic_iff, rpm_alloc_unbounded
+import rpm as _rpm
+UNPROVED = UNPROVED + _rpm.UNPROVED["C11"]
+_run_c11_rpm = run
+
+
+def run(ctx):
+    own, none = _composite.split_replay(ctx, ["rpm"])
+    cov, f, k = ({"evaluations": 0, "distinct_nontrivial": 0}, [], []) if none else _run_c11_rpm(own)
+    return _rpm.second(ctx, "C11", cov, f, k)
